@@ -381,6 +381,9 @@ def families():
                     declared=True))
     F.append(Family('stv_gregory_imperiali', 'ranked',
                     lambda: vs.TransferableVoteSelector(transferer='Gregory', quota_function='imperiali'), declared=True))
+    # election by elimination only (instant run-off): no quota at all - the stand-in "infinite" quota must stay above every total
+    F.append(Family('stv_gregory_noquota', 'ranked',
+                    lambda: vs.TransferableVoteSelector(transferer='Gregory', quota_function=None), declared=True))
     F.append(Family('stv_dist_gregory_droop', 'ranked',
                     lambda: vs.TransferableVoteDistributor(transferer='Gregory', quota_function='droop'),
                     kind='dist', scale_free=False, declared=True))
